@@ -13,9 +13,15 @@ Definition harness_world : world :=
      w_ica_acct := fun _ => false;
      w_ica_allow := fun _ => false |}.
 
+(** what is seen of InitChain when the genesis carries gentxs: did the chain start, and the validators after it *)
+Record genobs := { g_started : bool; g_vals : list vobs; g_allmax : Z }.
+
 Record case := {
   c_min_rate : Z;                  (* staking MinCommissionRate the chain was set up with *)
   c_cap_linked : Z;                (* ante.MAX_COMMISSION() of the linked binary *)
+  c_gentxs : list tx;              (* genutil gen_txs, delivered from InitChain at height 0 *)
+  c_genesis : option genobs;       (* None: a genesis without gentxs *)
+  c_setup_dt : Z;                  (* seconds between genesis time and the first transaction block's predecessor *)
   c_txs : list (tx * txobs)        (* delivered in order, each in its own block *)
 }.
 
@@ -35,7 +41,25 @@ Fixpoint replay (c : cfg) (s : st) (l : list (tx * txobs)) : bool :=
   | (x, o) :: r => let '(s', ok) := deliver c harness_world s x in obs_matches s' ok o && replay c s' r
   end.
 
-Definition mismatch (c : cfg) (k : case) : bool :=
-  negb ((cap c =? c_cap_linked k) && replay c (st0 (c_min_rate k)) (c_txs k)).
+Definition genesis_matches (s : st) (o : genobs) : bool :=
+  Nat.eqb (List.length (vals s)) (List.length (g_vals o)) && forallb (val_matches (vals s)) (g_vals o).
 
-Definition violates (k : case) : bool := negb (Pb (map snd (c_txs k))).
+(** [c]: the code as it treats transactions in blocks; [cg]: as it treats gentxs at height 0 *)
+Definition mismatch (c cg : cfg) (k : case) : bool :=
+  negb ((cap c =? c_cap_linked k) &&
+        match c_genesis k with
+        | None => replay c (st0 (c_min_rate k)) (c_txs k)
+        | Some o =>
+            match run_genesis cg harness_world (st0 (c_min_rate k)) (c_gentxs k) with
+            | None => negb (g_started o)
+            | Some s =>
+                (* InitGenesis panics when no module returned a validator update: at least one validator is needed *)
+                if Nat.eqb (List.length (vals s)) 0 then negb (g_started o)
+                else g_started o && genesis_matches s o && replay c (advance s (c_setup_dt k)) (c_txs k)
+            end
+        end).
+
+Definition genobs_as_tx (o : genobs) : txobs := {| o_ok := g_started o; o_vals := g_vals o; o_allmax := g_allmax o |}.
+
+Definition violates (k : case) : bool :=
+  negb (Pb (match c_genesis k with Some o => [genobs_as_tx o] | None => [] end ++ map snd (c_txs k))).
